@@ -340,6 +340,26 @@ func (w *World) CheckTypeInjection(out *Outcome, o *Obs) []Violation {
 		return nil
 	}
 	created := w.Created(o)
+	// `returns=*` asks whether the method exists, nothing more: where no point of the program
+	// compares the method's result, the container has no business invoking it
+	{
+		wildcardOnly, any := true, false
+		for _, t := range w.P.Types {
+			for _, pt := range t.Points {
+				if pt.Sel == sdl.SelFunc && pt.Name == "SimKind" {
+					any = true
+					if len(pt.Returns) != 1 || pt.Returns[0] != "*" {
+						wildcardOnly = false
+					}
+				}
+			}
+		}
+		if any && wildcardOnly {
+			for _, id := range sdl.SortedKeys(o.KindCalls) {
+				vs = append(vs, v("C06", "method-invoked-for-an-existence-test", id, fmt.Sprintf("every func point of the program that names SimKind asks for returns=* (the method exists), yet the container invoked SimKind() of %s %d time(s)", id, o.KindCalls[id])))
+			}
+		}
+	}
 	// a definition registered programmatically while the container refreshes is a candidate for
 	// every component created after that moment; for those created during Run it may or may
 	// not have been there yet
